@@ -273,7 +273,8 @@ Definition is_pat_target (t : node) : bool :=
 
 (** [hoist_key] / [hoist_target] / [hoist_super_target] / [hoist_simple_target]: whatever in a member
     target is more than an identifier is evaluated once into a temporary (the target is mentioned
-    twice by the rewritten assignment); parentheses around a target are dropped. *)
+    twice by the rewritten assignment); of the parentheses around a target one pair is kept
+    ([(let[k]) += x] must not come out as the declaration [let[k] = ...]). *)
 Definition hoist_key (c : config) (prop : node) (span : sp) (a : acc) (p : pstate) : node * acc * pstate :=
   match prop with
   | Node (K KComputed clo chi) [e] =>
@@ -309,7 +310,7 @@ Fixpoint peel_parens (n : node) : node :=
 Definition hoist_target (c : config) (lhs : node) (span : sp) (a : acc) (p : pstate) : node * acc * pstate :=
   let inner := if is_kind KParen lhs then peel_parens lhs else lhs in
   match hoist_member c inner span a p with
-  | Some r => r
+  | Some (t, a', p') => (if is_kind KParen lhs then mk_paren (span_of lhs) t else t, a', p')
   | None => (lhs, a, p)
   end.
 
